@@ -18,6 +18,17 @@ MULT = 'multiply_in_disconnected_internals'
 
 
 def run(prog: Program, rep: Report, tier: str) -> None:
+    from ..absint import domain as _dom
+    if tier == 'thorough':
+        _dom.refine([-2.0, -0.5, 0.5, 2.0])
+        rep.notes.append('thorough tier: abstract partition refined with cut points -2, -0.5, 0.5, 2 (16 numeric classes)')
+    try:
+        _run(prog, rep, tier)
+    finally:
+        _dom.refine([])
+
+
+def _run(prog: Program, rep: Report, tier: str) -> None:
     rep.rule('C01-D1', 'multiplier exactly once: on every path of sum_product_edges that returns a tensor, the returned value passes through exactly one application of multiply_in_disconnected_internals, called with the full node set, the set of nodes attached to some edge, and the (renamed) externals; every caller passes <rule>.rhs.nodes() as the node set; no value that already carries the multiplier is multiplied again (the j_precompute path is reported under C11)')
     rep.rule('C01-D2', 'multiplier guard: the domain size of node n is multiplied in iff n is neither attached to an edge nor external (truth table); the size comes from the node label\'s domain; the product is applied with the semiring\'s mul and from_int')
     rep.rule('C01-D3', 'edgeless externals: they are removed from the einsum output iff not connected, and restored by view/expand with size 1 exactly where removed')
